@@ -354,6 +354,8 @@ def _list_method(eng, obj, name, args, kwargs):
         return None
     if name == "insert":
         need_unguarded()
+        if has_seg(obj.items) and args[0] != 0:
+            raise Unsupported("list.insert at a position other than 0 into a list that holds an arbitrary segment")
         obj.items.insert(args[0], args[1])
         return None
     if name == "copy":
@@ -365,7 +367,7 @@ def _list_method(eng, obj, name, args, kwargs):
         need_unguarded()
         obj.items.clear()
         return None
-    if name in ("index", "remove", "sort", "count", "pop", "insert") and has_seg(obj.items):
+    if name in ("index", "remove", "sort", "count", "pop") and has_seg(obj.items):
         raise Unsupported(f"list.{name} on a list that holds an arbitrary segment")
     if name == "index":
         for i, x in enumerate(obj.items):
